@@ -53,11 +53,20 @@ def make_case(rng, cli):
         for r in reacs:
             r["idx"] = -1
     elif variant == "partial_index":
+        if rng.random() < 0.5:
+            # small file indices, so that list positions of the un-indexed reactions coincide with indices other reactions carry
+            off = rng.choice([0, 0, 1])
+            for i, r in enumerate(reacs):
+                r["idx"] = i + off
         for r in rng.sample(reacs, max(1, len(reacs) // 3)):
             r["idx"] = -1
     eff = [(i if variant == "unindexed" else r["idx"]) for i, r in enumerate(reacs)]   # index a modifier key is matched against
     present = sorted({e for e in eff if e != -1})
     keys = rng.sample(present, min(len(present), rng.randint(1, 3))) if present else []
+    if variant == "partial_index":
+        # keys equal to the list position of an un-indexed reaction: that reaction carries no index and must stay untouched
+        pos = [i for i, e in enumerate(eff) if e == -1]
+        keys = sorted(set(keys) | set(rng.sample(pos, min(len(pos), 2))))
     absent = max(present + [0]) + 1000
     exprs = [("1.25e-9", 1.25e-9), ("zeta", PARAMS["zeta"]), ("2.0*zeta", 2.0 * PARAMS["zeta"]), ("nH*1e-3 + 0.5", PARAMS["nH"] * 1e-3 + 0.5),
              ("Tgas/100.0", PARAMS["Tgas"] / 100.0), ("3.5", 3.5), ("0.0", 0.0)]
